@@ -13,8 +13,15 @@ from concurrent.futures import ThreadPoolExecutor
 VERIF = os.path.dirname(os.path.dirname(os.path.abspath(__file__)))
 REPO = os.environ.get("VERIF_REPO", "/repo")
 BUILD = os.path.join(VERIF, "build")
+# VERIF_REPO=<scratch copy of /repo> runs every check against that copy instead
+# (mutant self-tests, possibly several at once): all Rust build products, evidence
+# and replay files then live under build/alt-<tag>/ and /repo is not touched.
+ALT = os.path.realpath(REPO) != "/repo"
+ALT_DIR = os.path.join(BUILD, "alt-" + hashlib.sha1(os.path.realpath(REPO).encode()).hexdigest()[:8]) if ALT else None
+RUST_OUT = ALT_DIR if ALT else BUILD          # where target/ and target-repo/ live
+OUT_DIR = ALT_DIR if ALT else VERIF           # where evidence/ and replays/ are written
 COQ = os.path.join(VERIF, "coq")
-REPO_BIN = os.path.join(BUILD, "target-repo", "release", "cargo-tauri-typegen")
+REPO_BIN = os.path.join(RUST_OUT, "target-repo", "release", "cargo-tauri-typegen")
 NCPU = os.cpu_count() or 4
 GUARD = "tauri_typegen_verif"
 
@@ -30,8 +37,9 @@ def log(*a):
 
 class Lock:
     def __init__(self, name):
-        os.makedirs(BUILD, exist_ok=True)
-        self.path = os.path.join(BUILD, "." + name + ".lock")
+        base = ALT_DIR if (ALT and name.startswith("cargo")) else BUILD
+        os.makedirs(base, exist_ok=True)
+        self.path = os.path.join(base, "." + name + ".lock")
 
     def __enter__(self):
         self.f = open(self.path, "w")
@@ -211,7 +219,7 @@ def coqchk(pid, timeout=1500):
 # coq/Extract/ExC<NN>.v -> coq/tt_<id>.ml -> build/runner/<id>/tt-runner.
 
 def harness_bin(pid):
-    return os.path.join(BUILD, "target", "release", pid.lower())
+    return os.path.join(RUST_OUT, "target", "release", pid.lower())
 
 
 def runner_bin(pid):
@@ -222,14 +230,28 @@ def build_harness(pid=None):
     """Build the Rust driver(s) against the current working tree of REPO
     (cargo fingerprints make this a no-op when nothing changed)."""
     with Lock("cargo-harness"):
+        import shutil
         hdir = os.path.join(VERIF, "harness")
+        if ALT:
+            # private copy of the driver crate whose path dependency points at the scratch tree
+            src = hdir
+            hdir = os.path.join(ALT_DIR, "harness")
+            os.makedirs(os.path.join(hdir, "src", "bin"), exist_ok=True)
+            for r, _, ns in os.walk(os.path.join(src, "src")):
+                for n in ns:
+                    s = os.path.join(r, n)
+                    d = os.path.join(hdir, os.path.relpath(s, src))
+                    if not os.path.exists(d) or open(s, "rb").read() != open(d, "rb").read():
+                        shutil.copy(s, d)
+            toml = open(os.path.join(src, "Cargo.toml")).read().replace('path = "/repo"', 'path = "%s"' % os.path.realpath(REPO))
+            if not os.path.exists(os.path.join(hdir, "Cargo.toml")) or open(os.path.join(hdir, "Cargo.toml")).read() != toml:
+                open(os.path.join(hdir, "Cargo.toml"), "w").write(toml)
         lock_src = os.path.join(REPO, "Cargo.lock")
         lock_dst = os.path.join(hdir, "Cargo.lock")
         if not os.path.exists(lock_dst):
-            import shutil
             shutil.copy(lock_src, lock_dst)
         env = dict(ENV)
-        env["CARGO_TARGET_DIR"] = os.path.join(BUILD, "target")
+        env["CARGO_TARGET_DIR"] = os.path.join(RUST_OUT, "target")
         cmd = ["cargo", "build", "--release", "--offline"]
         if pid:
             cmd += ["--bin", pid.lower()]
@@ -245,7 +267,7 @@ def build_repo_bin():
         env = dict(ENV)
         env["RUSTFLAGS"] = "--cfg " + GUARD
         r = sh(["cargo", "build", "--release", "--offline", "--manifest-path", os.path.join(REPO, "Cargo.toml"),
-                "--bin", "cargo-tauri-typegen", "--target-dir", os.path.join(BUILD, "target-repo")],
+                "--bin", "cargo-tauri-typegen", "--target-dir", os.path.join(RUST_OUT, "target-repo")],
                env=env, check=False, timeout=3000)
         if r.returncode != 0:
             raise BuildError("binary build failed\n%s" % r.stdout[-4000:])
@@ -601,9 +623,9 @@ def case_hash(case):
 
 
 def write_replay(pid, kind, payload):
-    os.makedirs(os.path.join(VERIF, "replays"), exist_ok=True)
+    os.makedirs(os.path.join(OUT_DIR, "replays"), exist_ok=True)
     h = hashlib.sha256(json.dumps(payload, sort_keys=True, default=str).encode()).hexdigest()[:12]
-    path = os.path.join(VERIF, "replays", "%s-%s-%s.json" % (pid, kind, h))
+    path = os.path.join(OUT_DIR, "replays", "%s-%s-%s.json" % (pid, kind, h))
     payload = dict(payload)
     payload["property"] = pid
     payload["replay_cmd"] = "./check %s --replay %s" % (pid, os.path.relpath(path, VERIF))
@@ -729,8 +751,8 @@ class Report:
             "wall_s": round(time.time() - self.t0, 2),
             "violations": len(self.violations),
         }
-        os.makedirs(os.path.join(VERIF, "evidence"), exist_ok=True)
-        with open(os.path.join(VERIF, "evidence", pid + ".json"), "w") as f:
+        os.makedirs(os.path.join(OUT_DIR, "evidence"), exist_ok=True)
+        with open(os.path.join(OUT_DIR, "evidence", pid + ".json"), "w") as f:
             json.dump(ev, f, indent=1, default=str)
         return 1 if self.violations else 0
 
